@@ -70,6 +70,7 @@ func moreFacts(b *strings.Builder, root *pkgFiles, repo string) {
 	b.WriteString("]\n\n")
 	signingFacts(b, root, repo)
 	templateFacts(b, repo)
+	trackerFacts(b, repo)
 }
 
 // dsigConstants resolves the string constants of the goxmldsig module the repository builds against.
@@ -253,4 +254,56 @@ func byteList(s string) string {
 	}
 	sb.WriteString("]")
 	return sb.String()
+}
+
+// trackerFacts: the lifetime expressions of the default request tracker and its codec (samlsp/new.go),
+// and the cookie attributes the default session provider / tracker set.
+func trackerFacts(b *strings.Builder, repo string) {
+	p := parseDir(filepath.Join(repo, "samlsp"))
+	var rows []string
+	for _, fn := range sortedFileNames(p) {
+		for _, d := range p.files[fn].Decls {
+			fd, ok := d.(*ast.FuncDecl)
+			if !ok || fd.Body == nil {
+				continue
+			}
+			if fd.Name.Name != "DefaultTrackedRequestCodec" && fd.Name.Name != "DefaultRequestTracker" {
+				continue
+			}
+			found := false
+			ast.Inspect(fd.Body, func(n ast.Node) bool {
+				cl, ok := n.(*ast.CompositeLit)
+				if !ok {
+					return true
+				}
+				if v, ok := compositeFields(cl)["MaxAge"]; ok {
+					rows = append(rows, fmt.Sprintf("(%s, %s)", leanStr(fd.Name.Name), leanStr(exprStr(v))))
+					found = true
+				}
+				return true
+			})
+			if !found {
+				fail("samlsp %s: no MaxAge field found", fd.Name.Name)
+			}
+		}
+	}
+	b.WriteString("/-- `MaxAge` expression in the default tracker and its codec -/\ndef trackerMaxAge : List (String × String) := [" + strings.Join(rows, ", ") + "]\n\n")
+	// HttpOnly literals of the cookies the tracker and the session provider set
+	var flags []string
+	for _, fn := range sortedFileNames(p) {
+		ast.Inspect(p.files[fn], func(n ast.Node) bool {
+			cl, ok := n.(*ast.CompositeLit)
+			if !ok {
+				return true
+			}
+			if t := exprStr(cl.Type); t == "http.Cookie" || t == "&http.Cookie" {
+				fs := compositeFields(cl)
+				if v, ok := fs["HttpOnly"]; ok {
+					flags = append(flags, fmt.Sprintf("(%s, %s)", leanStr(fn), leanStr(exprStr(v))))
+				}
+			}
+			return true
+		})
+	}
+	b.WriteString("/-- `HttpOnly` expression of every cookie literal in samlsp -/\ndef cookieHttpOnly : List (String × String) := [" + strings.Join(flags, ", ") + "]\n\n")
 }
